@@ -120,7 +120,7 @@ func mappings(methods []string, quick bool) []map[string]string {
 }
 
 // RunSeq is the check behind C03, C04, C07 and C08.
-func RunSeq(prop, tier string) (int, error) {
+func RunSeq(prop, tier string, extra ...func(sc *core.Scratch, ev *core.Evidence, rep *core.Reporter) (int, error)) (int, error) {
 	if !seqProps[prop] {
 		return 2, fmt.Errorf("RunSeq does not decide %s", prop)
 	}
@@ -132,6 +132,17 @@ func RunSeq(prop, tier string) (int, error) {
 	}
 	defer sc.Cleanup()
 	code, err := runSeq(prop, tier, sc, ev, rep)
+	for _, x := range extra {
+		if err != nil || code == 2 {
+			break
+		}
+		c2, e2 := x(sc, ev, rep)
+		if e2 != nil {
+			code, err = 2, e2
+		} else if c2 > code {
+			code = c2
+		}
+	}
 	ev.Violations = rep.Count()
 	if werr := ev.Write(); werr != nil && err == nil {
 		err = werr
